@@ -72,6 +72,11 @@ pub struct GenCfg {
     /// a type may derive, in another module, from a type that has a private virtual function (the
     /// wrappers then do not compile: finding F20; only for checks that read the output with syn)
     pub allow_f20: bool,
+    /// rare index gaps of several thousand slots in vftable blocks
+    pub big_vft_gaps: bool,
+    /// `_: unknown<N>` gap fields may be written `pub` and carry doc comments (both are meaningless for
+    /// padding and must not show in the output)
+    pub decorated_gaps: bool,
 }
 
 impl GenCfg {
@@ -113,6 +118,8 @@ impl GenCfg {
             alias_types: 0,
             packed_den: 7,
             allow_f20: false,
+            big_vft_gaps: false,
+            decorated_gaps: false,
         }
     }
     pub fn layout_only(w: u64) -> GenCfg {
@@ -192,7 +199,11 @@ impl<'t, 'd> Gen<'t, 'd> {
     }
 
     fn num(&mut self, v: u64) -> Num {
-        let sp = if self.cfg.spellings { self.t.below(6) as u8 } else { 0 };
+        let mut sp = if self.cfg.spellings { self.t.below(6) as u8 } else { 0 };
+        // now and then with a type suffix (0xFFu64, 16usize)
+        if self.cfg.spellings && self.t.chance(1, 10) {
+            sp += 6 * (1 + self.t.below(5) as u8);
+        }
         Num { v: v as i128, sp }
     }
 
@@ -537,7 +548,13 @@ impl<'t, 'd> Gen<'t, 'd> {
         for _ in 0..n {
             let name = self.fn_name("vf", &funcs.iter().map(|f| f.name.clone()).collect::<Vec<_>>());
             let mut f = self.gen_func(m, name, true);
-            let gap = if self.t.chance(1, 4) { 1 + self.t.below(3) } else { 0 };
+            let gap = if self.t.chance(1, 4) {
+                1 + self.t.below(3)
+            } else if self.cfg.big_vft_gaps && self.t.chance(1, 25) {
+                4000 + self.t.below(3000)
+            } else {
+                0
+            };
             let slot = next + gap;
             let need_index = gap > 0 || (funcs.len() as u64 == prefix.map(|p| p.funcs.len() as u64).unwrap_or(0) && base_len > last_declared);
             if need_index || self.t.chance(1, 5) {
@@ -610,7 +627,15 @@ impl<'t, 'd> Gen<'t, 'd> {
                     td.vft = Some(v);
                 }
             } else if self.t.chance(self.cfg.vft_num, 4) {
-                td.vft = Some(self.gen_vft(m, None));
+                // an owner's block may happen to start with the very functions of one of its later bases
+                // (which has a table of its own): the pointer is the owner's all the same
+                let later: Vec<usize> = bases.iter().skip(1).copied().filter(|&b| self.known[b].has_vft).collect();
+                let pre = if !later.is_empty() && self.t.chance(1, 2) { self.effective_vft(later[0]) } else { None };
+                let v = self.gen_vft(m, pre.as_ref());
+                if pre.is_some() {
+                    self.import_sig(m, &v);
+                }
+                td.vft = Some(v);
                 owns_vptr = true;
             }
         }
@@ -650,14 +675,16 @@ impl<'t, 'd> Gen<'t, 'd> {
             if offset != cursor {
                 // state the position: as an address or as a preceding unknown gap
                 if self.t.chance(1, 3) {
+                    let deco = self.cfg.decorated_gaps && self.t.chance(1, 2);
+                    let gdoc = if deco && self.t.chance(1, 2) { vec![format!(" pv-gapdoc-{}", self.counter)] } else { vec![] };
                     fields.push(Field {
                         sty: 0,
-                        vis: false,
+                        vis: deco && self.t.chance(1, 2),
                         name: "_".into(),
                         ty: Ty::Unk(offset - cursor),
                         addr: None,
                         base: false,
-                        doc: vec![],
+                        doc: gdoc,
                     });
                     if offset - cursor > 32 {
                         can_default = false;
@@ -923,7 +950,7 @@ impl<'t, 'd> Gen<'t, 'd> {
                         break;
                     }
                 }
-                value = Some(Num { v, sp: if self.cfg.spellings { self.t.below(6) as u8 } else { 0 } });
+                value = Some(Num { v, sp: if self.cfg.spellings { self.t.below(6) as u8 + if self.t.chance(1, 10) { 6 * (1 + self.t.below(5) as u8) } else { 0 } } else { 0 } });
             }
             if used.contains(&v) || v > hi || v < lo {
                 break;
